@@ -11,10 +11,10 @@ Inductive case :=
 | CRedir (cfg_domains o_root : list str) (uri : str) (obs : bool)
 (* validSignature through the shim *)
 | CSig (now_ns : Z) (uri : str) (sg : sigval) (ts secret : str) (obs : bool)
-(* a request through the real ServeMux of NewAuthenticator. raw_outer / raw_nested: the
-   redirect_uri strings of /start before url.Parse(..).String(); o_loc: Location header;
+(* a request through the real ServeMux of NewAuthenticator, as sent on the wire (query pairs, body
+   pairs, content type; decoding oracles as tables keyed by the raw value). o_loc: Location header;
    o_carried: for a redirect to the provider, the URI found in the state handed to it *)
-| CServe (c : config) (now_ns : Z) (ep : endpoint) (q : request) (raw_outer raw_nested : str)
+| CServe (c : config) (now_ns : Z) (ep : endpoint) (w : wire)
          (o_status : N) (o_loc : option str) (o_carried : option str).
 
 (* ============ the property, as boolean specifications on observations ============ *)
@@ -65,37 +65,81 @@ Definition sig_spec (now_ns : Z) (uri : str) (sg : sigval) (ts secret : str) : b
 
 Definition is_nil_opt {A} (o : option A) : bool := match o with None => true | Some _ => false end.
 
+Definition opt_str_eqb0 (o : option str) (a : str) : bool := match o with Some x => str_eqb x a | None => false end.
+
 Definition contains (s sub : str) : bool :=
   (fix go (s : str) : bool :=
      has_prefix s sub || match s with [] => false | _ :: s' => go s' end) s.
 Definition code_param : str := [99; 111; 100; 101; 61].      (* code= *)
 Definition is_3xx (s : N) : bool := (300 <=? s) && (s <? 400).
 
-(* the monitor for one served request. It reads only the observation and the inputs. *)
-Definition serve_holds (c : config) (now_ns : Z) (ep : endpoint) (q : request)
+(* ---- "that very URI": when is an emitted Location derived from a presented URI? ---- *)
+(* verbatim redirects (/sign_out, /callback): Location = hexEscapeNonASCII(uri), byte for byte.
+   code redirect (/sign_in): URL.String() re-serialises, so compare what an RFC reader sees:
+   the authority text and the path, both percent-decoded (scheme and query are rewritten by the
+   handler and are not compared). *)
+Definition is_path_end (c : N) : bool := N.eqb c c_qmark || N.eqb c c_hash.
+Fixpoint span_path (s : str) : str :=
+  match s with [] => [] | c :: s' => if is_path_end c then [] else c :: span_path s' end.
+Definition target_of (s : str) : option (str * str) :=        (* decoded authority text, decoded path *)
+  let '(_, r) := split_scheme s in
+  if has_prefix r [c_slash; c_slash] then
+    let '(auth, rest) := span_authority (skipn 2 r) in
+    Some (pct_decode auth, pct_decode (span_path rest))
+  else None.
+Definition code_target_eq (loc u : str) : bool :=
+  match target_of loc, target_of u with
+  | Some (a1, p1), Some (a2, p2) => str_eqb a1 a2 && str_eqb p1 p2
+  | _, _ => false
+  end.
+
+(* some presented (sig, ts) pair is a valid fresh signature for exactly [u] *)
+Definition signed_among (c : config) (now_ns : Z) (w : wire) (u : str) : bool :=
+  existsb (fun s => existsb (fun t => sig_spec now_ns u (sig_lookup (w_sigtab w) s) t (c_secret c))
+                            (presented w k_ts))
+          (presented w k_sig).
+
+(* the monitor for one served request. It reads only the observation and what the client sent
+   (every value of every parameter, wherever it was put), never the model's choice of value:
+   a 3xx must go to an in-domain Location (independent RFC reading of the header actually written)
+   that is derived from a presented in-domain URI, and for /sign_in and /sign_out that very URI
+   must have a valid fresh signature among the presented (sig, ts) values. *)
+Definition serve_holds (c : config) (now_ns : Z) (ep : endpoint) (w : wire)
            (o_status : N) (o_loc o_carried : option str) : bool :=
   if negb (is_3xx o_status) then true
   else match o_carried with
        | Some a =>
-           (* login started at the identity provider: the carried URI and the nested proxy
-              URI are in-domain and the nested one is signed and fresh *)
-           rfc_in_domain a (c_domains c) &&
-           match q_nested q with
-           | Some b => rfc_in_domain b (c_domains c) && sig_spec now_ns b (q_sig q) (q_ts q) (c_secret c)
-           | None => false
-           end
+           (* login started at the identity provider: only /start, for a presented outer URI whose
+              String() is the carried one, in-domain, with an in-domain signed fresh nested URI *)
+           (match ep with EpStart => true | _ => false end) &&
+           existsb (fun x =>
+                      let i := start_lookup (w_starttab w) x in
+                      opt_str_eqb0 (si_outer i) a && rfc_in_domain a (c_domains c) &&
+                      match si_nested i with
+                      | Some b => rfc_in_domain b (c_domains c) &&
+                                  sig_spec now_ns b (si_sig i) (si_ts i) (c_secret c)
+                      | None => false
+                      end)
+                   (presented w k_redirect_uri)
        | None =>
            match o_loc with
            | None => false
            | Some loc =>
                rfc_in_domain loc (c_domains c) &&
-               (* a code, or a sign-out redirect, only for a signed fresh URI *)
                match ep with
-               | EpSignIn | EpSignOut => sig_spec now_ns (q_uri q) (q_sig q) (q_ts q) (c_secret c)
+               | EpSignOut =>
+                   existsb (fun u => str_eqb loc (hex_escape_non_ascii u) && rfc_in_domain u (c_domains c) &&
+                                     signed_among c now_ns w u) (presented w k_redirect_uri)
+               | EpSignIn =>
+                   existsb (fun u => code_target_eq loc u && rfc_in_domain u (c_domains c) &&
+                                     signed_among c now_ns w u) (presented w k_redirect_uri)
                | EpStart => false                        (* /start never redirects to the caller *)
-               | EpCallback => negb (contains loc code_param) ||
-                               (* the callback forwards the state's URI untouched: it attaches nothing *)
-                               match q_cb_state q with StPair _ r => str_eqb loc (hex_escape_non_ascii r) | _ => false end
+               | EpCallback =>
+                   (* the callback forwards the URI of a presented state untouched *)
+                   existsb (fun st => match state_lookup (w_statetab w) st with
+                                      | StPair _ r => str_eqb loc (hex_escape_non_ascii r) && rfc_in_domain r (c_domains c)
+                                      | _ => false
+                                      end) (presented w k_state)
                end
            end
        end.
@@ -132,15 +176,19 @@ Definition parse_holds (uri : str) (o_ok : bool) (o_host o_hostname : str) : boo
 
 Definition opt_str_eqb := option_eqb str_eqb.
 
-Definition serve_mismatch (c : config) (now_ns : Z) (ep : endpoint) (q : request)
-           (raw_outer raw_nested : str) (o_status : N) (o_loc o_carried : option str) : bool :=
-  let o := serve c now_ns ep q in
+Definition serve_mismatch (c : config) (now_ns : Z) (ep : endpoint) (w : wire)
+           (o_status : N) (o_loc o_carried : option str) : bool :=
+  let o := serve_wire c now_ns ep w in
   negb (
     N.eqb (status_of o) o_status &&
-    (* the /start oracles are consistent with the model's parser *)
+    (* the /start oracles are consistent with the model's parser, for every presented value *)
     (match ep with
-     | EpStart => bool_eqb (is_nil_opt (q_outer q)) (is_nil_opt (go_parse raw_outer)) &&
-                  (is_nil_opt (q_outer q) || bool_eqb (is_nil_opt (q_nested q)) (is_nil_opt (go_parse raw_nested)))
+     | EpStart =>
+         forallb (fun x => let i := start_lookup (w_starttab w) x in
+                           bool_eqb (is_nil_opt (si_outer i)) (is_nil_opt (go_parse x)) &&
+                           (is_nil_opt (si_outer i) ||
+                            bool_eqb (is_nil_opt (si_nested i)) (is_nil_opt (go_parse (si_raw_nested i)))))
+                 (presented w k_redirect_uri)
      | _ => true
      end) &&
     match o with
@@ -165,9 +213,9 @@ Definition judge (cs : case) : N :=
   | CSig now_ns uri sg ts secret obs =>
       code (negb (bool_eqb (valid_signature now_ns uri sg ts secret) obs))
            (negb obs || sig_spec now_ns uri sg ts secret) 0
-  | CServe c now_ns ep q ro rn o_status o_loc o_carried =>
-      code (serve_mismatch c now_ns ep q ro rn o_status o_loc o_carried)
-           (serve_holds c now_ns ep q o_status o_loc o_carried) 0
+  | CServe c now_ns ep w o_status o_loc o_carried =>
+      code (serve_mismatch c now_ns ep w o_status o_loc o_carried)
+           (serve_holds c now_ns ep w o_status o_loc o_carried) 0
   end.
 
 (* ============ classes for the evidence histogram ============ *)
@@ -200,7 +248,7 @@ Definition classify (cs : case) : N :=
                | Some t => if too_old now_ns t then 23 else 24
                end
            end
-  | CServe c now_ns ep q _ _ o_status o_loc o_carried =>
+  | CServe c now_ns ep w o_status o_loc o_carried =>
       100 + 10 * ep_num ep +
       match o_carried, o_loc with
       | Some _, _ => 5
